@@ -159,6 +159,9 @@ class BaseHandler:
             # A trailing "." segment is an alias of the directory itself: its
             # children would be "<dir>/./name", which the tests above refuse.
             and not self.selector.endswith("/.")
+            # Likewise "<dir>/" (what is left of a request for "<dir>//"):
+            # its children would be "<dir>//name".
+            and not (self.selector.endswith("/") and self.selector != "/")
         )
 
     def canhandlerequest(self) -> bool:
